@@ -245,6 +245,18 @@ fn craft_commands(v: &mut Value) {
             for (k, x) in o.iter_mut() {
                 if matches!(k.as_str(), "command" | "expected_command" | "run") && x.is_array() {
                     *x = json!(["sh", "-c", "echo hello  world", "", " ", "\ttab"]);
+                } else if matches!(k.as_str(), "name" | "readme" | "stdout" | "stderr") && x.is_string() {
+                    // free-text members keep leading / trailing / inner white space and case
+                    let t = x.as_str().unwrap().to_string();
+                    *x = json!(format!("  {t} X\t"));
+                } else if matches!(k.as_str(), "materials" | "products" | "environment") && x.is_object() {
+                    let o = x.as_object().unwrap().clone();
+                    let mut n = serde_json::Map::new();
+                    for (kk, vv) in o {
+                        let vv = if vv.is_string() { json!(format!(" {} ", vv.as_str().unwrap())) } else { vv };
+                        n.insert(format!(" {kk} /"), vv);
+                    }
+                    *x = Value::Object(n);
                 } else {
                     craft_commands(x);
                 }
